@@ -98,6 +98,9 @@ def lin_case(ctx, S, a, b, m, tag):
         else:
             s = S.LinearScale().domain([a, b])
         _REUSE["lin"] = s
+        if hash((b, a)) % 4 == 0:
+            s.range([0, [100, 960, 2000, 10000, -3000][hash((a, b)) % 5]])  # the output range has no say in nice() or ticks
+            ctx.path("linear.with-an-output-range")
         if m is not None and hash((a, b, m)) % 12 == 0:
             m = float(m)  # a count given as a float with an integral value is the same count
             ctx.path("linear.float-count")
@@ -157,6 +160,9 @@ def time_case(ctx, S, a, b, m, tag):
         else:
             s = S.TimeScale().domain([a, b])
         _REUSE["time"] = s
+        if hash((b, a)) % 4 == 0:
+            s.range([0, [100, 960, 2400, 10000, -3000][hash((a, b)) % 5]])
+            ctx.path("time.with-an-output-range")
         if mode == 1:
             # two live scales related by copy() hold different domains; the other one is asked for the same count first, and
             # the ticks of the original domain come from an unrelated scale
